@@ -90,12 +90,19 @@ CLAIMED = {
         technique="contract-based symbolic execution of the real code over bounded histories (bounded stand-in), obligations discharged by z3",
         design="3/C09",
     ),
+    "C08": dict(
+        category="other",
+        text="BOUNDED (not an unbounded proof): the per-sample grouping chain PAFScorer.predict runs after scoring -- the real get_connection_candidates, match_candidates_sample, toposort_edges, group_instances_sample, assign_connections_to_instances and make_predicted_instances -- is symbolically executed for every tree skeleton on 2..3 nodes (all edge listings/orientations) with 0..2 peaks per node type; peak coordinates/values, the line score of every candidate pair (finite or NaN) and the minimum line score are symbolic, every optimal assignment and every comparison outcome is explored. Per path: no exception; candidates are exactly all source x destination pairs; matches are one-to-one per edge, carry their pair's score, and maximise the total score among complete one-to-one assignments; instances are exactly the connected components of the accepted (score >= minimum) matches, each with its own peaks and peak scores, NaN elsewhere, instance score = sum of its accepted edge scores, instances below min_instance_peaks (int or fraction) dropped whole. The 'cost matrix is infeasible' crash on NaN scores in the pinned tree was found by the totality obligation and repaired (fix: commit in known_findings.txt).",
+        note="PAF sampling/scoring (make_line_subs, get_paf_lines, score_paf_lines, compute_distance_penalty) is abstracted to an arbitrary finite-or-NaN score per candidate pair and is NOT decided; the *_batch wrappers / PAFScorer.predict glue (nested tensors) are not covered (the contract harness composes the per-sample functions in the same order); scipy linear_sum_assignment under a trusted contract; torch.argsort tie order explored nondeterministically.",
+        technique="contract-based symbolic execution of the real code over bounded structures (bounded stand-in), obligations discharged by z3",
+        design="3/C08",
+    ),
 }
 
 NOT_APPLICABLE = {
     "C19": "no pre/postcondition on a function of this repository expresses it: training completion, artifacts and crash-point file contents live in Lightning/wandb/OmegaConf and the file system (DESIGN.md section 5)",
 }
-NOT_BUILT = ["C03", "C08", "C10", "C12", "C14", "C16", "C18"]
+NOT_BUILT = ["C03", "C10", "C12", "C14", "C16", "C18"]
 
 
 def main():
